@@ -530,6 +530,18 @@ class C06Spec(LPSpec):
 
     def shrink(self, sc):
         byz = sc.get('byz')
+        direct = [k for k, o in enumerate(sc['ops'])
+                  if o[0] == 'check_stability']
+        if direct:
+            # direct calls only; then one direct call less
+            if len(direct) < len(sc['ops']):
+                c = copy.deepcopy(sc)
+                c['ops'] = [o for o in c['ops'] if o[0] == 'check_stability']
+                yield c
+            for k in direct:
+                c = copy.deepcopy(sc)
+                del c['ops'][k]
+                yield c
         if byz and len(byz) > 1:
             for k in range(len(byz)):
                 c = copy.deepcopy(sc)
@@ -562,7 +574,8 @@ def _byz_legal(sc):
         I = rm.parse(instances.render(sc['inst']), sc['na'], True)
     except Exception:
         return False
-    for M in sc['byz']:
+    for M in list(sc['byz']) + [o[1]['assignment'] for o in sc['ops']
+                                if o[0] == 'check_stability']:
         M = tuple(M)
         if not rm.acceptable(I, M):
             return False
